@@ -13,6 +13,8 @@ from fractions import Fraction
 import z3
 
 QUICK_MS = int(os.environ.get("PYVC_TIMEOUT_MS", "10000"))
+RLIMIT_PER_MS = 1500   # z3 resource units per nominal millisecond of budget
+WALL_FACTOR = 40       # wall-clock backstop = nominal budget x this (a loaded machine only makes the proof slower)
 
 
 def model_value(m, v, depth=0):
@@ -57,8 +59,9 @@ def run_cvc5(smt2: str, timeout_ms: int) -> str:
             f.write("(set-logic ALL)\n" + smt2)
             p = f.name
         try:
-            out = subprocess.run(["/usr/bin/cvc5", "--lang", "smt2", f"--tlimit={timeout_ms}", p],
-                                 capture_output=True, text=True, timeout=timeout_ms / 1000 + 5)
+            # cvc5 either answers within milliseconds or not at all on these queries; its (wall-clock) limit is generous
+            out = subprocess.run(["/usr/bin/cvc5", "--lang", "smt2", f"--tlimit={timeout_ms * 4}", p],
+                                 capture_output=True, text=True, timeout=timeout_ms * 4 / 1000 + 5)
             r = out.stdout.strip().splitlines()
             return r[0] if r else "unknown"
         finally:
@@ -70,8 +73,12 @@ def run_cvc5(smt2: str, timeout_ms: int) -> str:
 def discharge(ob, input_syms, timeout_ms):
     t0 = time.time()
     s = z3.Solver()
-    # portfolio: z3 with a short budget, then cvc5 on the same query text, then z3 with the full budget
-    s.set("timeout", min(timeout_ms, 2500) if ob.expect == "valid" else min(timeout_ms, 1000))
+    # portfolio: z3 with a short budget, then cvc5 on the same query text, then z3 with the full budget.
+    # z3's budgets are RESOURCE limits (rlimit, deterministic: about 1.4 M units per CPU second here), so a verdict does
+    # not depend on how busy the machine is; the wall-clock timeout is only a generous backstop.
+    short = min(timeout_ms, 2500) if ob.expect == "valid" else min(timeout_ms, 1000)
+    s.set("rlimit", short * RLIMIT_PER_MS)
+    s.set("timeout", short * WALL_FACTOR)
     for h in ob.hyps:
         s.add(h)
     s.add(z3.Not(ob.goal))
@@ -81,7 +88,8 @@ def discharge(ob, input_syms, timeout_ms):
         if r2 == "unsat":
             return {"name": ob.name, "kind": ob.kind, "expect": ob.expect, "solver": "cvc5", "status": "discharged",
                     "time": round(time.time() - t0, 4)}
-        s.set("timeout", timeout_ms)
+        s.set("rlimit", timeout_ms * RLIMIT_PER_MS)
+        s.set("timeout", timeout_ms * WALL_FACTOR)
         r = s.check()
     res = {"name": ob.name, "kind": ob.kind, "expect": ob.expect, "solver": "z3", "time": 0.0}
     if ob.expect == "refutable":
@@ -121,8 +129,9 @@ def discharge(ob, input_syms, timeout_ms):
 
 
 def prove_one(task):
-    """task = (spec_modules, key, variant, timeout_ms)"""
-    spec_modules, key, variant, timeout_ms = task
+    """task = (spec_modules, key, variant, timeout_ms[, shard, nshards])"""
+    spec_modules, key, variant, timeout_ms = task[:4]
+    shard, nshards = (task[4], task[5]) if len(task) > 4 else (0, 1)
     out = {"function": key, "variant": variant, "obligations": [], "error": None, "drift": None, "builtins": []}
     try:
         for m in spec_modules:
@@ -150,6 +159,10 @@ def prove_one(task):
             out["drift"] = f"spec names loop #{bad} but the function has {n_loops} loops"
             return out
         from .concrete import replay, candidate_models
+        only = os.environ.get("PYVC_ONLY")
+        if only:
+            obls = [o for o in obls if any(p in o.name for p in only.split(","))]
+        obls = obls[shard::nshards]
         n_replays = 0
         confirmed = None
         searched = False
@@ -269,7 +282,9 @@ def prove_functions(spec_modules, keys, tier="quick", procs=16, lemma_groups=())
         if sp.trusted:
             continue
         for var in (sp.variants or [None]):
-            tasks.append((spec_modules, k, var, timeout_ms))
+            ns = max(1, min(sp.shards, procs))
+            for sh in range(ns):
+                tasks.append((spec_modules, k, var, timeout_ms, sh, ns))
     ctx = mp.get_context("fork")
     with ctx.Pool(min(procs, max(1, len(tasks)))) as pool:
         lem_async = pool.apply_async(prove_bv_lemmas, (spec_modules, list(lemma_groups))) if lemma_groups else None
@@ -278,7 +293,18 @@ def prove_functions(spec_modules, keys, tier="quick", procs=16, lemma_groups=())
     rep = {"functions": [], "obligations": [], "assumptions": [], "trusted": [], "defects": [], "hygiene": {}}
     covers = vac = 0
     builtins = set()
-    for r in results:
+    merged = {}
+    for r in results:  # shards of one function are one result
+        fk = (r["function"], str(r["variant"]))
+        if fk not in merged:
+            merged[fk] = r
+        else:
+            m0 = merged[fk]
+            m0["obligations"].extend(r["obligations"])
+            m0["builtins"] = sorted(set(m0.get("builtins", [])) | set(r.get("builtins", [])))
+            m0["error"] = m0["error"] or r["error"]
+            m0["drift"] = m0["drift"] or r["drift"]
+    for r in merged.values():
         fname = r["function"] + (str(r["variant"]) if r["variant"] else "")
         rep["functions"].append(fname)
         builtins.update(r.get("builtins", []))
